@@ -299,12 +299,12 @@ Qed.
 
 (* ---- up ---- *)
 Lemma up_spec : forall fuel h j n,
-  n = List.length h -> (j < n)%nat -> (j < fuel)%nat ->
+  (n <= List.length h)%nat -> (j < n)%nat -> (j < fuel)%nat ->
   (forall p c, (c < n)%nat -> child p c -> c <> j -> hv h p <= hv h c) ->
   (forall g c, child g j -> child j c -> (c < n)%nat -> hv h g <= hv h c) ->
   exists h', hp_up fuel h j = Ok h' /\ sw n h h' /\ ordered h' n.
 Proof.
-  induction fuel as [|fuel IH]; intros h j n -> Lj Lf A B; [lia|].
+  induction fuel as [|fuel IH]; intros h j n Ln Lj Lf A B; [lia|].
   cbn [hp_up]. destruct (Nat.eqb_spec ((j - 1) / 2) j) as [E0|NE0].
   { exists h. split; [reflexivity|]. split; [apply sw_refl|]. intros p c Lc C. apply A; auto.
     unfold child in C. lia. }
@@ -320,8 +320,8 @@ Proof.
   rewrite Swap_ok by lia. cbn [obind].
   assert (V : forall k, hv (swapped h i j) k = if Nat.eqb k j then hv h i else if Nat.eqb k i then hv h j else hv h k)
     by (intros k; apply hv_swapped; lia).
-  destruct (IH (swapped h i j) i (List.length h)) as (h' & E & S & O).
-  - rewrite swapped_length. reflexivity.
+  destruct (IH (swapped h i j) i n) as (h' & E & S & O).
+  - rewrite swapped_length. assumption.
   - lia.
   - lia.
   - intros p c Lc C NEc. rewrite !V.
@@ -380,7 +380,7 @@ Proof.
   assert (L0 : List.length h0 = S n) by (unfold h0, pq_Push; rewrite app_length; cbn; lia).
   rewrite L0. replace (S n - 1)%nat with n by lia.
   destruct (up_spec (S n) h0 n (S n)) as (h' & E & S & O').
-  - congruence.
+  - lia.
   - lia.
   - lia.
   - intros p c Lc C NE. unfold h0, pq_Push. rewrite !hv_app by (unfold child in C; lia).
@@ -460,7 +460,7 @@ Proof.
     + assumption.
     + assumption.
   - rewrite (Same eq_refl) in *. clear Same S E.
-    destruct (up_spec (S i) h i (List.length h) eq_refl Li ltac:(lia)) as (h' & E & S & O').
+    destruct (up_spec (S i) h i (List.length h) (le_n _) Li ltac:(lia)) as (h' & E & S & O').
     + intros p c Lc C NE. apply O1; auto.
     + assumption.
     + exists h'. destruct S as (L1 & Pm & Ix & _). split; [assumption|]. split; [split|split].
@@ -541,3 +541,99 @@ Proof.
 Qed.
 Lemma heap_Fix_empty : heap_Fix_nat [] 0 = Ok [].
 Proof. reflexivity. Qed.
+
+(* ---- termination of up / down within the fuel given, for ANY slice (no order assumed) ---- *)
+Lemma hp_up_total : forall fuel h j, (j < List.length h)%nat -> (j < fuel)%nat ->
+  exists h', hp_up fuel h j = Ok h' /\ List.length h' = List.length h.
+Proof.
+  induction fuel as [|fuel IH]; intros h j Lj Lf; [lia|].
+  cbn [hp_up]. destruct (Nat.eqb_spec ((j - 1) / 2) j); [eauto|].
+  rewrite Less_ok by lia. cbn [obind]. destruct (negb _); [eauto|].
+  rewrite Swap_ok by lia. cbn [obind].
+  destruct (IH (swapped h ((j - 1) / 2) j) ((j - 1) / 2)%nat) as (h' & E & L).
+  - rewrite swapped_length. lia.
+  - lia.
+  - exists h'. rewrite swapped_length in L. auto.
+Qed.
+
+Lemma hp_down_loop_total : forall fuel h i n, (n <= List.length h)%nat -> (n - i < fuel)%nat ->
+  exists h' i', hp_down_loop fuel h i n = Ok (h', i') /\ List.length h' = List.length h.
+Proof.
+  induction fuel as [|fuel IH]; intros h i n Ln Lf; [lia|].
+  cbn [hp_down_loop]. destruct (Nat.leb_spec n (2 * i + 1)); [eauto|].
+  assert (Go : forall j, (i < j < n)%nat ->
+            exists h' i', (do lt <- pq_Less h j i;
+                           if negb lt then Ok (h, i) else do h' <- pq_Swap h i j; hp_down_loop fuel h' j n) = Ok (h', i') /\
+                          List.length h' = List.length h).
+  { intros j Lj. rewrite Less_ok by lia. cbn [obind]. destruct (negb _); [eauto|].
+    rewrite Swap_ok by lia. cbn [obind].
+    destruct (IH (swapped h i j) j n) as (h' & i' & E & L).
+    - rewrite swapped_length. assumption.
+    - lia.
+    - exists h', i'. rewrite swapped_length in L. auto. }
+  destruct (Nat.ltb_spec (2 * i + 1 + 1) n) as [L2|L2].
+  - rewrite Less_ok by lia. cbn [obind]. apply Go. destruct (_ <? _); lia.
+  - cbn [obind]. apply Go. lia.
+Qed.
+
+(* ---- pq.Pop alone (drop the last slot) ---- *)
+Lemma pq_Pop_spec h n x : List.length h = S n -> nth_error h n = Some x -> ordered h n -> idx_ok h ->
+  pq_Pop h = Ok (h_set_idx x (-1), firstn n h) /\ heap_inv (firstn n h) /\
+  Permutation (h_data x :: map h_data (firstn n h)) (map h_data h).
+Proof.
+  intros Len Last O I. unfold pq_Pop. rewrite Len, Last. split; [reflexivity|].
+  assert (Lf : List.length (firstn n h) = n) by (rewrite firstn_length; lia).
+  split; [split|].
+  - rewrite Lf. intros p c Lc C. rewrite !hv_firstn by (unfold child in C; lia). apply O; assumption.
+  - intros i y Hy. assert (Li : (i < n)%nat) by (rewrite <- Lf; apply nth_error_Some; congruence).
+    rewrite nth_error_firstn in Hy by assumption. apply I. assumption.
+  - rewrite (firstn_snoc h n x Len Last) at 2. rewrite map_app. cbn. apply Permutation_cons_append.
+Qed.
+
+(* ---- heap.Remove on a valid index ---- *)
+Lemma heap_Remove_spec h i : heap_inv h -> (i < List.length h)%nat ->
+  exists x h', heap_Remove h i = Ok (x, h') /\ heap_inv h' /\ h_idx x = -1 /\
+    h_data x = h_data (nth i h dummy) /\
+    Permutation (h_data x :: map h_data h') (map h_data h).
+Proof.
+  intros [O I] Li. unfold heap_Remove, pq_Len.
+  destruct (List.length h) as [|n] eqn:Len; [lia|].
+  destruct (Nat.eqb_spec n i) as [->|NE].
+  - destruct (pq_Pop_spec h i (nth i h dummy) Len) as (E & HI' & Pm).
+    + apply nth_error_some. lia.
+    + intros p c Lc C. apply O; [lia|assumption].
+    + assumption.
+    + eexists. eexists. split; [exact E|]. split; [assumption|]. split; [reflexivity|]. split; [reflexivity|assumption].
+  - assert (Lin : (i < n)%nat) by lia.
+    rewrite Swap_ok by lia. cbn [obind].
+    set (h1 := swapped h i n).
+    assert (L1 : List.length h1 = S n) by (unfold h1; rewrite swapped_length; assumption).
+    assert (V : forall k, hv h1 k = if Nat.eqb k n then hv h i else if Nat.eqb k i then hv h n else hv h k)
+      by (intros k; apply hv_swapped; lia).
+    assert (I1 : idx_ok h1) by (apply swapped_idx_ok; [lia|lia|assumption]).
+    assert (A1 : forall p c, (c < n)%nat -> child p c -> c <> i -> p <> i -> hv h1 p <= hv h1 c).
+    { intros p c Lc C NEc NEp. rewrite !V.
+      destruct (Nat.eqb_spec c n); [lia|]. destruct (Nat.eqb_spec p n); [unfold child in C; lia|].
+      destruct (Nat.eqb_spec c i); [lia|]. destruct (Nat.eqb_spec p i); [lia|]. apply O; [lia|assumption]. }
+    assert (B1 : forall g c, child g i -> child i c -> (c < n)%nat -> hv h1 g <= hv h1 c).
+    { intros g c Cg Cc Lc. rewrite !V.
+      destruct (Nat.eqb_spec g n); [unfold child in *; lia|]. destruct (Nat.eqb_spec g i); [unfold child in *; lia|].
+      destruct (Nat.eqb_spec c n); [lia|]. destruct (Nat.eqb_spec c i); [unfold child in *; lia|].
+      pose proof (O g i ltac:(lia) Cg). pose proof (O i c ltac:(lia) Cc). lia. }
+    destruct (down_spec h1 i n ltac:(lia) A1 B1) as (h2 & moved & E & Sw2 & Same & O2).
+    rewrite E. cbn [obind fst snd].
+    assert (Fin : exists h3, (if moved then Ok h2 else hp_up (S i) h2 i) = Ok h3 /\ sw n h1 h3 /\ ordered h3 n).
+    { destruct moved.
+      - exists h2. split; [reflexivity|]. split; [exact Sw2|]. intros p c Lc C. apply O2; auto.
+      - rewrite (Same eq_refl) in *.
+        destruct (up_spec (S i) h1 i n ltac:(lia) Lin ltac:(lia)) as (h3 & E3 & S3 & O3).
+        + intros p c Lc C NEc. apply O2; auto.
+        + assumption.
+        + exists h3. auto. }
+    destruct Fin as (h3 & -> & (L3 & Pm3 & Ix3 & Keep3) & O3). cbn [obind].
+    assert (Last : nth_error h3 n = Some (h_set_idx (nth i h dummy) (Z.of_nat n))).
+    { rewrite Keep3 by lia. unfold h1. rewrite swapped_nth_error by lia. rewrite Nat.eqb_refl. reflexivity. }
+    destruct (pq_Pop_spec h3 n _ ltac:(lia) Last O3 (Ix3 I1)) as (EP & HI' & Pm).
+    eexists. eexists. split; [exact EP|]. split; [assumption|]. split; [reflexivity|]. split; [reflexivity|].
+    eapply perm_trans; [exact Pm|]. eapply perm_trans; [exact Pm3|]. apply swapped_perm; lia.
+Qed.
